@@ -126,7 +126,7 @@ pub fn alphabet(l: L, n: usize) -> Vec<String> {
     // digit below/at thresholds 5 and 9, multi-digit, ordinals, linking, conjunction, ordinary, punctuation
     let v = vec![
         c.one, c.unit, c.tens, c.ordinary, ",".to_string(), c.small_ord, c.linking, ".".to_string(), c.sep, c.conj, c.unit2, c.large_ord, c.zero, c.hundred, " ".to_string(),
-        c.teen, "!".to_string(), ". ".to_string(), format!("!{}", vocab::cls(l).unit), format!("!{}", vocab::cls(l).linking), "?!".to_string(),
+        c.teen, "!".to_string(), ". ".to_string(), format!("!{}", vocab::cls(l).unit), format!("!{}", vocab::cls(l).linking), "qw'fp".to_string(), "b2".to_string(), "xyzzy,".to_string(), ".\u{a0}".to_string(), "e-xyzzy".to_string(), "?!".to_string(),
     ];
     let mut out: Vec<String> = vec![];
     for w in v {
@@ -140,7 +140,7 @@ pub fn alphabet(l: L, n: usize) -> Vec<String> {
 
 pub fn run(tier: Tier) -> i32 {
     let ctx = Ctx::new("C09", tier);
-    let (n1, k1, n2, k2) = tier.pick((20usize, 4usize, 11usize, 6usize), (20, 5, 11, 7));
+    let (n1, k1, n2, k2) = tier.pick((25usize, 4usize, 11usize, 6usize), (25, 5, 11, 7));
     let mut total = Acc::new();
     let mut alphas = vec![];
     for l in langs::ALL {
@@ -165,6 +165,6 @@ pub fn run(tier: Tier) -> i32 {
     });
     ctx.finish(total, cov, vec![
         "the language's linking-word set is taken from the interpreter (is_linking on the lowercased token); the conjunction counts as linking".into(),
-        "digit tokens are not in this alphabet; '!word' is a token flagged not-a-number-part (an ordinary word for the policy); the decimal-separator word is (a separator that starts no fraction is an ordinary word)".into(),
+        "digit tokens are not in this alphabet; '!word' is a token flagged not-a-number-part (an ordinary word for the policy); words mixing letters with an apostrophe, a hyphen, a digit or glued punctuation are ordinary words too; the decimal-separator word is (a separator that starts no fraction is an ordinary word)".into(),
     ])
 }
